@@ -101,6 +101,50 @@ names_slice!(c14_names_entry_14, 14);
 names_slice!(c14_names_entry_15, 15);
 names_slice!(c14_names_entry_16, 16);
 names_slice!(c14_names_entry_17, 17);
+
+/// `name_matches` is case-insensitive on every list of the table: each listed word (name, alias or misspelling),
+/// in every letter case (symbolic case mask), still matches the list it is written in
+fn lists_case_insensitive(entries: &'static [CommandNameEntry], lo: usize, hi: usize) {
+    let mask: u32 = kani::any();
+    let mut e = lo;
+    while e < hi && e < entries.len() {
+        let mut k = 0;
+        while k < entries[e].candidates.len() {
+            let mut buf = [0u8; 24];
+            let v = case_variant(entries[e].candidates[k], mask, &mut buf);
+            assert!(name_matches(v, entries[e].candidates), "a documented command name / alias is not recognised in some letter case");
+            k += 1;
+        }
+        let mut m = 0;
+        while m < entries[e].misspellings.len() {
+            let mut buf = [0u8; 24];
+            let v = case_variant(entries[e].misspellings[m], mask, &mut buf);
+            assert!(name_matches(v, entries[e].misspellings), "a documented misspelling is not recognised in some letter case");
+            m += 1;
+        }
+        e += 1;
+    }
+    kani::cover!(mask & 0xFF == 0xA5);
+}
+#[kani::proof]
+#[kani::unwind(26)]
+fn c14_names_lists_case_insensitive_lo() {
+    assert!(COMMANDS.len() == 18, "command table changed size: adjust the harness ranges");
+    lists_case_insensitive(COMMANDS, 0, 9);
+}
+#[kani::proof]
+#[kani::unwind(26)]
+fn c14_names_lists_case_insensitive_hi() {
+    assert!(COMMANDS.len() == 18, "command table changed size: adjust the harness ranges");
+    lists_case_insensitive(COMMANDS, 9, 18);
+}
+/// the table as written (canonical spelling) is unambiguous: every name / alias resolves to its own entry's command,
+/// no name is listed for two commands, and a misspelling that is not also a real name yields a suggestion
+#[kani::proof]
+#[kani::unwind(26)]
+fn c14_names_table_unambiguous() {
+    table_range_mask(COMMANDS, 0, COMMANDS.len(), 0);
+}
 #[kani::proof]
 #[kani::unwind(26)]
 fn c14_names_subcommands() {
